@@ -64,7 +64,7 @@ func cacheKey(uri, parentURI string) string {
 		return uri
 	}
 
-	return filepath.Join(filepath.Dir(parentURI), fileName)
+	return filepath.Join(filepath.Dir(strings.TrimPrefix(parentURI, "file://")), fileName)
 }
 
 func NewFileLoader(resolveExtensions, yamlExtensions []string) *FileLoader {
@@ -209,7 +209,8 @@ func QualifiedFileName(fileName, parentFileName string, resolveExtensions []stri
 	fileName = strings.TrimPrefix(fileName, "file://")
 
 	if !filepath.IsAbs(fileName) {
-		fileName = filepath.Join(filepath.Dir(parentFileName), fileName)
+		// The referring document may itself have been named by a file URL.
+		fileName = filepath.Join(filepath.Dir(strings.TrimPrefix(parentFileName, "file://")), fileName)
 	}
 
 	exts := append([]string{""}, resolveExtensions...)
